@@ -193,6 +193,89 @@ theorem equalise_swap_safe (rs : List CSampler) (hinv : ∀ r ∈ rs, r.Inv) (i 
   simp only
   rw [hc]; omega
 
+/-! ### raw `swap_manager_and_state`, `into_qmc`, mixed histories -/
+
+/-- The public swap (after 074d32a): both sampler objects end with the larger cutoff (so neither
+shrinks), each holds the other's operators, both containers are exactly that long, `Inv` holds
+again, and a free slot on both sides before means a free slot on both sides after. -/
+theorem swap_spec (a b : CSampler) (ha : a.Inv) (hb : b.Inv) :
+    a.cutoff ≤ (swapSamplers a b).1.cutoff ∧ b.cutoff ≤ (swapSamplers a b).2.cutoff ∧
+    (swapSamplers a b).1.cutoff = max a.cutoff b.cutoff ∧
+    (swapSamplers a b).2.cutoff = max a.cutoff b.cutoff ∧
+    (swapSamplers a b).1.n = b.n ∧ (swapSamplers a b).2.n = a.n ∧
+    (swapSamplers a b).1.Inv ∧ (swapSamplers a b).2.Inv ∧
+    (swapSamplers a b).1.n ≤ (swapSamplers a b).1.cutoff ∧
+    (swapSamplers a b).2.n ≤ (swapSamplers a b).2.cutoff ∧
+    (a.n < a.cutoff → b.n < b.cutoff →
+      (swapSamplers a b).1.n < (swapSamplers a b).1.cutoff ∧
+      (swapSamplers a b).2.n < (swapSamplers a b).2.cutoff) := by
+  obtain ⟨c1, c2, n1, n2, _, _, i1, i2⟩ := swapSamplers_spec a b ha hb
+  refine ⟨by rw [c1]; omega, by rw [c2]; omega, c1, c2, n1, n2, i1, i2, inv_n_le _ i1, inv_n_le _ i2, ?_⟩
+  intro fa fb
+  rw [c1, c2, n1, n2]; omega
+
+/-- `into_qmc` hands the cutoff over exactly (never the constructor default `nvars`), keeps the
+operators, pads the container, keeps `Inv`. -/
+theorem convert_carries_cutoff (nvars : Nat) (s : CSampler) :
+    (convertSampler nvars s).cutoff = s.cutoff ∧ (convertSampler nvars s).n = s.n ∧
+    s.len ≤ (convertSampler nvars s).len ∧ (s.Inv → (convertSampler nvars s).Inv) := by
+  obtain ⟨h1, h2, h3, h4⟩ := convertSampler_spec nvars s
+  exact ⟨h1, h2, by rw [h3]; exact growLen_ge_left _ _, h4⟩
+
+/-- one public call on a pair of samplers: `Inv` on both sides again, object A's cutoff does not
+decrease, object B's does not decrease unless B was replaced by a freshly built sampler. -/
+theorem pair_action_invariant (p : CSampler × CSampler) (act : PairAction)
+    (ha : p.1.Inv) (hb : p.2.Inv) :
+    (applyPair p act).1.Inv ∧ (applyPair p act).2.Inv ∧ p.1.cutoff ≤ (applyPair p act).1.cutoff ∧
+    ((∀ c, act ≠ .freshB c) → p.2.cutoff ≤ (applyPair p act).2.cutoff) := by
+  cases act with
+  | stepA d =>
+    have h := step_invariant d p.1 ha
+    exact ⟨h.2.2.2.2.2.2, hb, h.1, fun _ => Nat.le_refl _⟩
+  | stepB d =>
+    have h := step_invariant d p.2 hb
+    exact ⟨ha, h.2.2.2.2.2.2, Nat.le_refl _, fun _ => h.1⟩
+  | swap =>
+    have h := swap_spec p.1 p.2 ha hb
+    exact ⟨h.2.2.2.2.2.2.1, h.2.2.2.2.2.2.2.1, h.1, fun _ => h.2.1⟩
+  | raiseA c =>
+    refine ⟨?_, hb, ?_, fun _ => Nat.le_refl _⟩
+    · apply setCutoff_inv
+      unfold CSampler.Inv at ha; omega
+    · show p.1.cutoff ≤ max p.1.cutoff c
+      omega
+  | convertA nv =>
+    have h := convertSampler_spec nv p.1
+    exact ⟨h.2.2.2 ha, hb, by rw [show (applyPair p (.convertA nv)).1.cutoff = p.1.cutoff from h.1]; exact Nat.le_refl _,
+      fun _ => Nat.le_refl _⟩
+  | freshB c =>
+    exact ⟨ha, newIsing_inv c, Nat.le_refl _, fun h => absurd rfl (h c)⟩
+
+/-- any history of public calls (time steps with arbitrary decisions, raw swaps in either
+direction, raising a cutoff, conversion, partner rebuilt) from samplers in `Inv`: both in `Inv`
+(hence `n ≤ cutoff` and container length ≤ cutoff before the next sweep) and object A's reported
+cutoff never below its starting value. -/
+theorem pair_history_invariant (acts : List PairAction) (p : CSampler × CSampler)
+    (ha : p.1.Inv) (hb : p.2.Inv) :
+    (runPair acts p).1.Inv ∧ (runPair acts p).2.Inv ∧
+    (runPair acts p).1.n ≤ (runPair acts p).1.cutoff ∧ (runPair acts p).2.n ≤ (runPair acts p).2.cutoff ∧
+    p.1.cutoff ≤ (runPair acts p).1.cutoff := by
+  induction acts generalizing p with
+  | nil => exact ⟨ha, hb, inv_n_le _ ha, inv_n_le _ hb, Nat.le_refl _⟩
+  | cons act t ih =>
+    obtain ⟨h1, h2, h3, _⟩ := pair_action_invariant p act ha hb
+    have := ih (applyPair p act) h1 h2
+    exact ⟨this.1, this.2.1, this.2.2.1, this.2.2.2.1, Nat.le_trans h3 this.2.2.2.2⟩
+
+/-- witness of what the guard "only extend a container that is too short" (seeded mutation) would
+break: a fresh sampler with cutoff 1 receiving the full-length container of a cutoff-4 sampler
+must end with cutoff 4. -/
+example :
+    let a := run [fun _ _ => true] (newIsing 4)   -- n = 4, cutoff 7, container 4
+    let b := newIsing 1
+    ((swapSamplers b a).1.cutoff, (swapSamplers b a).1.n, (swapSamplers b a).1.len) = (7, 4, 7) := by
+  decide
+
 /-! ### non-vacuity: concrete runs -/
 
 /-- cutoff 1, two steps: fill the slot, then fill both slots → cutoffs 2, 4; counts 1, 2 -/
